@@ -111,6 +111,15 @@ class Ex:
                 a, ka = self.tr(e.args[0])
                 if ka == R:
                     return f"rabs ({a})", R
+            if isinstance(e.func, ast.Attribute) and e.func.attr == "dot" and len(e.args) == 1 and not e.keywords:
+                a, ka = self.tr(e.func.value); b, kb = self.tr(e.args[0])
+                if ka == M and kb == V:
+                    return f"Mat.mulVec ({a}) ({b})", V
+            if isinstance(e.func, ast.Attribute) and e.func.attr == "reshape" and len(e.args) == 1 and not e.keywords \
+                    and ast.unparse(e.args[0]) in ("(c_sys.dim, c_sys.dim)", "(self.dim, self.dim)"):
+                a, ka = self.tr(e.func.value)
+                if ka == V:
+                    return f"unflat ({a})", M
             if isinstance(e.func, ast.Attribute) and not e.args and not e.keywords:
                 if e.func.attr in ("conj", "conjugate"):
                     a, ka = self.tr(e.func.value)
@@ -311,13 +320,54 @@ def generate(repo):
     emit(f"{w}:{elt.lineno} `{ast.unparse(elt)}`",
          f"processEntry {HDR} {{d : Nat}} (B_alpha B_beta : Mat K d d) (hs_comp : Mat K (d * d) (d * d)) : K", t)
 
-    for nm, callee in (("to_var_from_choi", "to_hs_from_choi_with_sparsity(c_sys, choi)"), ("to_choi_from_var", "to_choi_from_hs_with_sparsity(c_sys, hs)")):
+    # callees of the variable <-> Choi glue, as model terms (D3 site: forward vs inverse conversion)
+    CALLEE = {"to_hs_from_choi_with_sparsity": "hsOfChoiSparseRaw", "to_choi_from_hs_with_sparsity": "choiSparse"}
+    for nm, target, arg, lean in (("to_var_from_choi", "hs", "choi", "toVarFromChoiHs"), ("to_choi_from_var", "choi", "hs", "toChoiFromVarChoi")):
         f = find_fn(gate, nm)
-        target = "hs" if nm == "to_var_from_choi" else "choi"
-        got = ast.unparse(assign_to(f, target, f"gate.py:{nm}").value)
-        if got != callee:
-            raise Untranslatable(f"gate.py:{nm}: `{target} = {got}` is not `{callee}`")
-        emit(f"gate.py:{nm} `{target} = {got}`", f"{'toVarFromChoiCallee' if nm == 'to_var_from_choi' else 'toChoiFromVarCallee'} : String", f'"{got.split("(")[0]}"')
+        v = assign_to(f, target, f"gate.py:{nm}").value
+        if not (isinstance(v, ast.Call) and isinstance(v.func, ast.Name) and v.func.id in CALLEE and [ast.unparse(a) for a in v.args] == ["c_sys", arg] and not v.keywords):
+            raise Untranslatable(f"gate.py:{nm}: `{target} = {ast.unparse(v)}` is not a call of a modelled conversion on (c_sys, {arg})")
+        emit(f"gate.py:{nm} `{target} = {ast.unparse(v)}`",
+             f"{lean} {HDR} {{d : Nat}} (B : Basis K d (d * d)) ({arg} : Mat K (d * d) (d * d)) : Mat K (d * d) (d * d)", f"{CALLEE[v.func.id]} B {arg}")
+
+    # ---- state.py / povm.py: coefficient vector <-> matrix
+    state = P("quara/objects/state.py")
+    w = "state.py:to_density_matrix_from_vec"
+    f = find_fn(state, "to_density_matrix_from_vec")
+    t, k = Ex(w, {"c_sys.basis_T_sparse": ("basisT B", M), "vec": ("vec", V)}, lets_of(f)).tr(assign_to(f, "density", w).value)
+    emit(f"{w} `density_vec = c_sys.basis_T_sparse.dot(vec)`; `density = density_vec.reshape((c_sys.dim, c_sys.dim))`",
+         f"densitySparseTerm {HDR} {{d n : Nat}} (B : Basis K d n) (vec : Vec K n) : Mat K d d", t)
+    w = "state.py:to_vec_from_density_matrix_with_sparsity"
+    f = find_fn(state, "to_vec_from_density_matrix_with_sparsity")
+    t, k = Ex(w, {"c_sys.basisconjugate_sparse": ("basisConj B", M), "density_matrix": ("density_matrix", M)}).tr(assign_to(f, "vec", w).value)
+    emit(f"{w} `vec = {ast.unparse(assign_to(f, 'vec', w).value)}`",
+         f"vecOfDensityTerm {HDR} {{d n : Nat}} (B : Basis K d n) (density_matrix : Mat K d d) : Vec K n", t)
+    w = "povm.py:to_vec_from_matrix_with_sparsity"
+    f = find_fn(povm, "to_vec_from_matrix_with_sparsity")
+    t, k = Ex(w, {"c_sys.basisconjugate_sparse": ("basisConj B", M), "matrix": ("matrix", M)}).tr(assign_to(f, "vec", w).value)
+    emit(f"{w} `vec = {ast.unparse(assign_to(f, 'vec', w).value)}`",
+         f"povmVecOfMatrixTerm {HDR} {{d n : Nat}} (B : Basis K d n) (matrix : Mat K d d) : Vec K n", t)
+    w = "povm.py:Povm.matrix_with_sparsity"
+    f = find_fn(povm, "matrix_with_sparsity", "Povm")
+    if ast.unparse(assign_to(f, "vec", w).value) != "self.vec(index)":
+        raise Untranslatable(f"{w}: vec is not self.vec(index)")
+    t, k = Ex(w, {"self.composite_system.basis_T_sparse": ("basisT B", M), "vec": ("vec", V)}, {"new_vec": lets_of(f)["new_vec"]}).tr(assign_to(f, "matrix", w).value)
+    emit(f"{w} `vec = self.vec(index)`; `new_vec = self.composite_system.basis_T_sparse.dot(vec)`; `matrix = new_vec.reshape((self.dim, self.dim))`",
+         f"povmMatrixSparseTerm {HDR} {{d n : Nat}} (B : Basis K d n) (vec : Vec K n) : Mat K d d", t)
+    # the dense loops `X += coefficient * basis` over zip(vec, basis) (State.to_density_matrix, Povm.matrices, Povm.matrix)
+    for lean, tree, cls, fn, acc, it in (("densityLoopTerm", state, "State", "to_density_matrix", "density", "zip(self._vec, self.composite_system.basis())"),
+                                         ("povmMatricesLoopTerm", povm, "Povm", "matrices", "matrix", "zip(v, self.composite_system.basis())"),
+                                         ("povmMatrixLoopTerm", povm, "Povm", "matrix", "matrix", "zip(vec, self.composite_system.basis())")):
+        w = f"{cls}.{fn}"
+        f = find_fn(tree, fn, cls)
+        if loop_vars(f, it, w) != ["coefficient", "basis"]:
+            raise Untranslatable(f"{w}: loop is not `for coefficient, basis in {it}`")
+        st = assign_to(f, acc, w, aug=True)
+        t, k = Ex(w, {"coefficient": ("coefficient", S), "basis": ("basis", M)}).tr(st.value)
+        if k != M:
+            raise Untranslatable(f"{w}: the summand is not a matrix")
+        emit(f"{w} `for coefficient, basis in {it}: {ast.unparse(st)}`",
+             f"{lean} {HDR} {{d : Nat}} (acc : Mat K d d) (coefficient : K) (basis : Mat K d d) : Mat K d d", f"Mat.add acc ({t})")
 
     # ---- composite_system.py: B_alpha (x) conj(B_beta) at its four sites
     for site, cls_fn in (("dense", "basis_basisconjugate"), ("dictFwd", "dict_from_hs_to_choi"), ("dictInv", "dict_from_choi_to_hs"), ("sparse", "_calc_basis_basisconjugate_sparse")):
@@ -435,19 +485,13 @@ def generate(repo):
          "if !(truncImagCond eps z) && z.im != 0 then .error .imagNonZero\n  else .ok (if truncFluctCond eps z.re then 0 else z.re)")
 
     # ---- povm.py
-    w = "povm.py:Povm.matrix_with_sparsity"
-    f = find_fn(povm, "matrix_with_sparsity", "Povm")
-    if ast.unparse(assign_to(f, "new_vec", w).value) != "self.composite_system.basis_T_sparse.dot(vec)" or ast.unparse(assign_to(f, "vec", w).value) != "self.vec(index)" \
-            or ast.unparse(assign_to(f, "matrix", w).value) != "new_vec.reshape((self.dim, self.dim))":
-        raise Untranslatable(f"{w}: body is not vec = self.vec(index); basis_T_sparse.dot(vec); reshape((dim, dim))")
     w = "povm.py:Povm._md_index2serial_index"
     f = find_fn(povm, "_md_index2serial_index", "Povm")
     srcs = [ast.unparse(s) for s in f.body if not (isinstance(s, ast.Expr) and isinstance(s.value, ast.Constant))]
     if srcs != ["serial_index_array = np.array(range(self._num_outcomes)).reshape(self.nums_local_outcomes)", "target = serial_index_array",
                 "for i in md_index:\n    target = target[i]", "return target"]:
         raise Untranslatable(f"{w}: body is not the row-major index table lookup (found {srcs})")
-    emit("povm.py:Povm._md_index2serial_index: `np.array(range(n)).reshape(nums_local_outcomes)[i1][i2]…` matched (row-major table lookup); "
-         "povm.py:Povm.matrix_with_sparsity: `basis_T_sparse.dot(self.vec(index)).reshape((dim, dim))` matched",
-         "povmSkeletonMatched : Bool", "true")
+    out.append("-- povm.py:Povm._md_index2serial_index matched the row-major index-table skeleton (generator-side guard: a different body makes\n"
+               "-- the generator fail; the model's `mdSerial` is tied to it by the correspondence on all multi-indices, not by a theorem)\n")
     out.append("end QGen.C02")
     return "\n".join(out) + "\n"
